@@ -2,7 +2,14 @@ package main
 
 import (
 	"fmt"
+	gobuild "go/build"
+	"os"
+	"path/filepath"
+
+	"github.com/mmcloughlin/avo/attr"
 	"github.com/mmcloughlin/avo/build"
+	"github.com/mmcloughlin/avo/pass"
+	"github.com/mmcloughlin/avo/printer"
 	"go/build/constraint"
 	"reflect"
 	"strings"
@@ -75,6 +82,10 @@ func c14(c *Ctx) {
 	}
 	var rows []string
 	nvalid, nonascii := 0, 0
+	nfiles, maxFiles := 0, 25
+	if c.Thorough() {
+		maxFiles = 400
+	}
 	for j := 0; j < n; j++ {
 		cs := genConstraints(rng)
 		names := map[string]bool{}
@@ -168,10 +179,6 @@ func c14(c *Ctx) {
 		}
 		text := cs.GoString()
 		var evals []string
-		type asg struct {
-			set []string
-			res bool
-		}
 		var asgs []asg
 		for m := 0; m < 1<<uint(len(nameList)); m++ {
 			var set []string
@@ -239,6 +246,13 @@ func c14(c *Ctx) {
 					o.Plan.GoViolations = append(o.Plan.GoViolations, GoViolation{Key: key, Desc: fmt.Sprintf("case %d: with tags %v the toolchain selects=%v but avo evaluates %v; constraints %q printed as %q", idx, a.set, sel, a.res, desc, strings.TrimSpace(hdr)), Replay: map[string]any{"constraints": desc, "header": hdr, "tags": a.set}})
 					break
 				}
+			}
+			// the files themselves: an assembly file (with the textflag.h include a NOSPLIT function brings) and a
+			// stub file carrying this constraint set, as the printers write them, selected by go/build's own
+			// file matching for every assignment
+			if nfiles < maxFiles {
+				nfiles++
+				fileLevelConstraints(c, o, idx, cs, desc, asgs)
 			}
 			// parsing avo's textual form gives back the same constraint
 			for _, cn := range cs {
@@ -360,4 +374,48 @@ func hasEmpty(cs buildtags.Constraints) bool {
 		}
 	}
 	return false
+}
+
+type asg struct {
+	set []string
+	res bool
+}
+
+func fileLevelConstraints(c *Ctx, o *Out, idx int, cs buildtags.Constraints, desc string, asgs []asg) {
+	ctx := build.NewContext()
+	ctx.Constraints(cs)
+	ctx.Function("F")
+	ctx.Attributes(attr.NOSPLIT)
+	ctx.SignatureExpr("func()")
+	ctx.RET()
+	f, err := ctx.Result()
+	if err != nil {
+		return
+	}
+	if err := pass.Compile.Execute(f); err != nil {
+		return
+	}
+	cfg := printer.Config{Name: "avo", Pkg: "p"}
+	asm, e1 := printer.NewGoAsm(cfg).Print(f)
+	stub, e2 := printer.NewStubs(cfg).Print(f)
+	if e1 != nil || e2 != nil {
+		o.Plan.GoViolations = append(o.Plan.GoViolations, GoViolation{Key: "tags:file-print-error", Desc: fmt.Sprintf("case %d: printing a file with constraints %q fails: %v %v", idx, desc, e1, e2), Replay: map[string]any{"constraints": desc}})
+		return
+	}
+	dir := filepath.Join(c.Tmp, fmt.Sprintf("c14file%d", idx))
+	os.MkdirAll(dir, 0o755)
+	defer os.RemoveAll(dir)
+	os.WriteFile(filepath.Join(dir, "f.s"), asm, 0o644)
+	os.WriteFile(filepath.Join(dir, "f.go"), stub, 0o644)
+	for _, a := range asgs {
+		// a context in which only the listed tags are set: unknown OS/architecture/compiler names
+		bc := gobuild.Context{GOOS: "vos", GOARCH: "varch", Compiler: "vcc", BuildTags: a.set}
+		for _, name := range []string{"f.s", "f.go"} {
+			sel, err := bc.MatchFile(dir, name)
+			if err != nil || sel != a.res {
+				o.Plan.GoViolations = append(o.Plan.GoViolations, GoViolation{Key: "tags:file-selection-differs", Desc: fmt.Sprintf("case %d: with tags %v go/build selects the printed %s = %v (err %v) but avo evaluates the constraints %q to %v", idx, a.set, name, sel, err, desc, a.res), Replay: map[string]any{"constraints": desc, "tags": a.set, "file": name, "asm": string(asm), "stub": string(stub)}})
+				return
+			}
+		}
+	}
 }
